@@ -53,6 +53,19 @@ def tasks(tier):
         for e in ["RetryPolicySet.call", "RetryPolicySet.execute", "AsyncRetryPolicySet.call",
                   "RetrySet.execute", "AsyncRetrySet.call"]:
             out.append({"family": "protocol-assigned", "cfg": base, "entry": e, "bound": 0})
+    # context-manager entry points with callbacks bound on the context
+    CTX = ["Policy.context", "Retry.context", "RetryPolicy.context", "AsyncPolicy.context",
+           "AsyncRetry.context", "AsyncRetryPolicy.context"]
+    for hd, bs, sl, e in itertools.product(PLACES, [None, "policy", "call"], PLACES[1:], CTX):
+        base = dict(M=3, alphabet=["x:T", "ok", "r:T"], handler=hd, before_sleep=bs, sleeper=sl,
+                    handler_free=True, max_unknown=None, strat_menu=[1, 0], strat_free=True)
+        out.append({"family": "protocol-context", "cfg": base, "entry": e, "bound": 0})
+    # callbacks that are callable *objects* whose truth value is False
+    for hd, bs, sl, e in itertools.product(["call", "both", "policy"], [None, "call", "both"],
+                                           ["call", "both", "policy"], SYNC + ASYNC):
+        base = dict(M=3, alphabet=["x:T", "ok", "r:T"], handler=hd, before_sleep=bs, sleeper=sl,
+                    handler_free=True, max_unknown=None, callable_kind="falsy")
+        out.append({"family": "protocol-falsy-callables", "cfg": base, "entry": e, "bound": 0})
     # awaitables that are not coroutines (objects with __await__)
     for hd, e in itertools.product([None, "call", "policy"], ASYNC):
         cfg = dict(M=3, alphabet=["x:T", "ok", "r:T"], handler=hd, before_sleep="call",
